@@ -608,6 +608,10 @@ func runC11(c *Ctx, r *Report) {
 		}
 	}
 
+	r.Rule("C11.R7", "an update keeps the stored key: in SmallMap.Set and BigMap.Set, on the edge where the search found the key, the only store into the pair storage is to the Value field of a pair")
+	c.checkUpdateKeepsKey(r, "C11.R7")
+	r.Rule("C11.R8", "length decides the representation of arrays too: a locally built BigArray is boxed as a program value only in object.NewArray (which tests the length), the fixed lists of `info` excepted")
+	c.checkBigArrayOnlyFromNewArray(r, "C11.R8")
 	// shared C07.R9: the small representation never indexes past its capacity (thresholds and length field)
 	r.Rule("C07.R9", "(shared) fixed-capacity containers: length fields within capacity, index and slice bounds proven")
 	{
@@ -693,4 +697,156 @@ func loopBody(hdr, b *ssa.BasicBlock) bool {
 		}
 	}
 	return false
+}
+
+// checkUpdateKeepsKey: rule C11.R7.
+//
+// Keys are looked up with Cmp, for which 1 and 1.0 are equal although they are different values. Updating an
+// entry through an equal key keeps the key that is stored (both representations): in the Set methods, on the edge
+// where the search found the key, the only store into the pair storage is to the Value field of a pair.
+func (c *Ctx) checkUpdateKeepsKey(r *Report, rule string) {
+	kvObj := c.P("object").Types.Scope().Lookup("keyValuePair")
+	if kvObj == nil {
+		r.Undecided("%s: object.keyValuePair not found", rule)
+		return
+	}
+	kvT := kvObj.Type()
+	valIdx := fieldIndex(kvT.(*types.Named), "Value")
+	bp := c.newBoundProver()
+	n := 0
+	for _, name := range []string{"SmallMap.Set", "BigMap.Set"} {
+		fn := c.SSAFn(c.Fn("object", name))
+		// the found edge: a block controlled by the found flag of a binary search (direct or summarised helper)
+		foundBlock := func(b *ssa.BasicBlock) bool {
+			for _, cc := range controlling(b) {
+				cond, edge := cc.Cond, cc.Edge
+				if u, ok := cond.(*ssa.UnOp); ok && u.Op == token.NOT {
+					cond, edge = u.X, 1-edge
+				}
+				ex, ok := cond.(*ssa.Extract)
+				if !ok || edge != 0 {
+					continue
+				}
+				call, ok := ex.Tuple.(*ssa.Call)
+				if !ok {
+					continue
+				}
+				for _, ref := range *call.Referrers() {
+					if pe, ok := ref.(*ssa.Extract); ok {
+						if si, ok := bp.searchPos(pe); ok && si.bfound == ex.Index {
+							return true
+						}
+					}
+				}
+				// the hand-written search of the small representation: get(key) (value, found, position)
+				if callee := call.Common().StaticCallee(); callee != nil && callee.Pkg == fn.Pkg && callee.Name() == "get" && callee.Signature.Results().Len() == 3 && ex.Index == 1 {
+					return true
+				}
+			}
+			return false
+		}
+		k := 0
+		eachInstr(fn, func(in ssa.Instruction) {
+			st, ok := in.(*ssa.Store)
+			if !ok || !foundBlock(st.Block()) {
+				return
+			}
+			// stores into pair storage: an element (whole pair) or a field of an element
+			whole, field := false, -1
+			switch a := st.Addr.(type) {
+			case *ssa.IndexAddr:
+				if et := elemTypeOf(a.X.Type()); et != nil && types.Identical(et, kvT) {
+					whole = true
+				}
+			case *ssa.FieldAddr:
+				if ia, ok := a.X.(*ssa.IndexAddr); ok {
+					if et := elemTypeOf(ia.X.Type()); et != nil && types.Identical(et, kvT) {
+						field = a.Field
+					}
+				}
+			}
+			if !whole && field < 0 {
+				return
+			}
+			n++
+			k++
+			desc := "an update stores the value only"
+			if k > 1 {
+				desc += " #" + itoa(k)
+			}
+			r.Check(!whole && field == valIdx, rule, ssaFuncName(fn), desc, c.Pos(st.Pos()),
+				"where the key was found, Set overwrites the stored key (the whole pair, or its Key field) instead of the value alone: m[1.0] = v on a map that has the key 1 replaces the key in one representation and keeps it in the other (first(m).key, keys(m) differ between a map of 4 and of 5 pairs)")
+		})
+	}
+	if n < 2 {
+		r.Undecided("%s: only %d stores on the found edge of the two Set methods", rule, n)
+	}
+}
+
+func elemTypeOf(t types.Type) types.Type {
+	switch u := t.Underlying().(type) {
+	case *types.Slice:
+		return u.Elem()
+	case *types.Array:
+		return u.Elem()
+	case *types.Pointer:
+		if a, ok := u.Elem().Underlying().(*types.Array); ok {
+			return a.Elem()
+		}
+	}
+	return nil
+}
+
+// checkBigArrayOnlyFromNewArray: rule C11.R8 (arrays; shared with C06).
+//
+// Arrays of at most 8 elements are SmallArray values (copied on assignment), larger ones share their storage.
+// Which one a value is depends on its length only as long as every array is made by NewArray, which tests the
+// length. A BigArray boxed as a program value anywhere else (rest() of a 9 element array resliced in place) is a
+// short array that aliases its source.
+var bigArrayBoxingExceptions = map[string]string{
+	"object.(*Environment).BaseInfo": "the fixed lists of keywords, tokens, builtins and extension names of `info`: each has far more than 8 entries",
+}
+
+func (c *Ctx) checkBigArrayOnlyFromNewArray(r *Report, rule string) {
+	bigT := c.TypeNamed("object", "BigArray")
+	newArray := c.SSAFn(c.Fn("object", "NewArray"))
+	n := 0
+	for _, fn := range c.ModuleSSAFuncs() {
+		k := 0
+		eachInstr(fn, func(in ssa.Instruction) {
+			mi, ok := in.(*ssa.MakeInterface)
+			if !ok || !types.Identical(mi.X.Type(), bigT) {
+				return
+			}
+			// the value being boxed was built here (a composite literal), not read from somewhere
+			if !builtHere(mi.X) {
+				return
+			}
+			n++
+			k++
+			desc := "a BigArray is boxed where its length was tested"
+			if k > 1 {
+				desc += " #" + itoa(k)
+			}
+			if why, ok := bigArrayBoxingExceptions[ssaFuncName(fn)]; ok {
+				r.OkWhy(rule, ssaFuncName(fn), desc, c.Pos(mi.Pos()), "exception: "+why)
+				return
+			}
+			r.Check(fn == newArray, rule, ssaFuncName(fn), desc, c.Pos(mi.Pos()),
+				"a BigArray built outside object.NewArray becomes a program value without a length test: when it has 8 elements or fewer it is a short array that shares its storage (b = rest(a) on 9 elements; b[0] = 99 changes a), while every other array of that length is a copied SmallArray")
+		})
+	}
+	if n == 0 {
+		r.Undecided("%s: no boxing of a locally built BigArray found (NewArray expected)", rule)
+	}
+}
+
+// builtHere: the struct value was assembled in this function (load of a local composite literal).
+func builtHere(v ssa.Value) bool {
+	ld, ok := v.(*ssa.UnOp)
+	if !ok {
+		return false
+	}
+	_, isAlloc := ld.X.(*ssa.Alloc)
+	return isAlloc
 }
